@@ -1,5 +1,5 @@
 \* any contract-abiding, progressing planner: at rest within budget, plans decrease the measure, convergence
-SPECIFICATION Spec
+SPECIFICATION FairSpec
 CONSTANTS
   MaxSegmentsPerTier = 2
   MaxSegmentSize = 12
@@ -8,7 +8,7 @@ CONSTANTS
   FloorSegmentSize = 1
   ArriveSizes = {1, 2, 5}
   MaxSegs = 3
-  MaxArrivals = 4
+  MaxArrivals = 3
 INVARIANTS TypeOK RestWithinBudget BudgetIsLogarithmic
-PROPERTIES PlanDecreases
+PROPERTIES PlanDecreases Converges
 CHECK_DEADLOCK FALSE
